@@ -131,7 +131,9 @@ def run_case(ctx, k, rng):
             ok = abs(float(vl) - v) <= 1e-12 * scale_of(A, B)
             info = {"list": vl}
             if A.size and B.size and np.all(A == np.round(A)) and np.all(B == np.round(B)) and scale_of(A, B) < 1e9:
-                vi = call(ctx, A.astype(np.int64), B.astype(np.int64))
+                (ia, da), (ib, db) = vforms.as_int_dtype(rng, A), vforms.as_int_dtype(rng, B)
+                info["int_dtypes"] = [da, db]
+                vi = call(ctx, ia, ib)
                 ok = ok and abs(float(vi) - v) <= tol
                 info["int"] = vi
                 ctx.note("int-form-cases")
@@ -142,6 +144,15 @@ def run_case(ctx, k, rng):
                 info["layout"] = [na, nb, vf]
                 ctx.note("layout-form-cases")
             ctx.check("list/int forms agree", ok, base=v, **info)
+            if rng.random() < 0.3:
+                ia, fa_, da = vforms.near_limit_int_diagram(rng, int(rng.integers(1, 7)))
+                ib, fb_, db = vforms.near_limit_int_diagram(rng, int(rng.integers(1, 7)), dtypes=(np.dtype(da).type,))
+                ctx.set_payload({"dgm1": ia, "dgm2": ib, "dtype": da})
+                vi, vf = float(call(ctx, ia, ib)), float(call(ctx, fa_, fb_))
+                ref2 = OM.wasserstein_lsa(OM.finite_rows(fa_), OM.finite_rows(fb_))
+                t2 = 1e-7 * scale_of(fa_, fb_) * (len(fa_) + len(fb_) + 1)
+                ctx.check("narrow integer dtype near its limits == float64 of the same values", abs(vi - vf) <= t2 and abs(vi - ref2) <= t2,
+                          int_form=vi, float_form=vf, oracle=ref2, dtype=da)
         except Exception as e:
             ctx.exception("list/int forms agree", e)
     else:
